@@ -25,6 +25,10 @@ CLAIMS = {
     "C03": ("Lean 4 theorems: rotation effect (epoch+1, fresh hash, well-formed set <-> declarative wfSigners), non-operator latest+delay, operator any in-window set, out-of-window rejected for every command, registry entries permanent, operator changes only by operator/owner; differential run + judge on the real gateway",
             "Machine-checked proofs of the exact effect and preconditions of every successful rotation, equivalence of validate_signers with the declarative well-formedness predicate, the operator/non-operator rules, rejection of out-of-window sets by both commands, permanence of registry entries over all histories, and that operatorship changes only by operator or owner; the real gateway is run against the model over rotation/time/operatorship histories.",
             GW_NOTE, "DESIGN.md §3 C03"),
+    "C15": ("Lean 4 theorems: outflow only via collectFees/refund by the current collector to a non-zero receiver within balance; payment endpoints emit exactly one event built from the received value; collector changes only by collector/owner; conservation (balance = initial + receipts - outflows) by induction over all call histories; differential run + judge on the real gas service",
+            "Machine-checked proofs over all histories of the eight payment endpoints, collectFees, refund and setGasCollector: who can move funds, to whom and how much, the exact event of every accepted payment, and the per-token conservation law by induction over arbitrary call lists; the real gas service is run in the Rust VM against the compiled model (balances compared after every operation) and judged by the same rules.",
+            "Payments are fungible (nonce 0) ESDT or EGLD as the endpoints require; balances are unbounded naturals (BigUint). Trusted: Lean kernel, model, harness, debug VM balance/transfer semantics.",
+            "DESIGN.md §3 C15"),
     "C06": ("Lean 4 theorem: model of raw_abi_encode = independent Solidity abi.encode spec, for all token lists; tied to source by regenerated field tables + differential run on the real abi_encode",
             "Machine-checked proof (Lean 4 kernel) that the model of the Rust encoder equals a Solidity-ABI spec for every value (all lengths, all integers < 2^256), and rejects every integer >= 2^256; the model is tied to /repo by regenerated field lists (proof obligations) and by running the real `abi_encode` of all five payload structs against the model and against the spec on generated values.",
             "Assumes: total encoding < 2^32 bytes (u32 arithmetic in abi.rs; unreachable for buffers the VM can hold); bytes32 fields are 32 bytes (Rust type). Trusted: Lean kernel, hand-written model/spec, extractor, harness, Rust debug VM managed-type API.",
